@@ -1,8 +1,11 @@
 (** C05 — Edits through the format-preserving parser are local and read back.
     Only statements; every proof is [exact <lemma>] or a short composition.
 
-    Model: Repro/Doc.v (the functions [run_op], [step], [run], [dump], [getitem] that
-    Repro/DocCheck.agree runs against the implementation); proofs: Repro/DocProofs.v.
+    Model: Repro/Doc.v (the functions [run_op], [step], [run], [dump], [getitem], [scan_para]
+    that Repro/DocCheck.agree runs against the implementation); hypotheses: Repro/DocInv.v
+    ([doc_ok], [doc_wf]: evaluated by agree on every parsed document); Spec: Repro/DocSpec.v
+    ([valid_value], [expected_read]: what DocCheck.holds demands of the implementation);
+    proofs: Repro/DocProofs.v, Repro/DocDup.v.
 
     Vocabulary.
       [split_doc d j = Some (a, p, b)]   paragraph [j] of the document is [p]; [a], [b] are the
@@ -16,14 +19,18 @@
       [doc_ok d]                         a valid document: no paragraph has two fields with the same
                                          name (case-insensitively), every field has its colon, and
                                          only the very last item/field may lack its final newline.
-                                         (Paragraphs of valid documents are of the no-duplicates
-                                         class; the duplicate-fields class is modelled and compared
-                                         with the implementation but is outside these theorems.)
+                                         Both paragraph classes are covered: the no-duplicates class
+                                         (every paragraph of a valid document as parsed) and the
+                                         duplicate-fields class in a state without repeated names
+                                         (its name index consistent with its node list, [d_wf]);
+                                         paragraphs that do repeat a name are modelled and compared
+                                         with the implementation but are outside these theorems.
       [own_lines v]                      the new field's text starts with its comment lines (each
                                          complete), then a name made of field-name characters,
                                          the colon, and it ends with a newline. *)
 From Coq Require Import String.
-From Verif Require Import Lib.Base Lib.Dec Lib.PyStr Gen.PyChars Repro.Doc Repro.DocInv Repro.DocProofs.
+From Verif Require Import Repro.DocSpec.
+From Verif Require Import Lib.Base Lib.Dec Lib.PyStr Gen.PyChars Repro.Doc Repro.DocInv Repro.DocDup Repro.DocProofs.
 
 (** 1. set_existing_local.  [p[k] = value] on a field that exists: every byte before the field's
        value — including the field's own comment lines and the name in its original spelling — and
@@ -40,7 +47,8 @@ Theorem C05_set_existing_local :
       dump d  = (dump a ++ ftext l1 ++ f_comment f ++ f_name f) ++ f_rest f ++ (ftext l2 ++ dump b) /\
       dump d' = (dump a ++ ftext l1 ++ f_comment f ++ f_name f) ++ rest'    ++ (ftext l2 ++ dump b) /\
       colon_first rest' = true /\ ends_nl rest' = true /\
-      d' = a ++ Para (PN (l1 ++ mkF (f_comment f) (f_name f) rest' :: l2)) :: b /\
+      (exists p', d' = a ++ Para p' :: b
+                  /\ para_fields p' = l1 ++ mkF (f_comment f) (f_name f) rest' :: l2) /\
       doc_ok d' = true.
 Proof.
   intros d j k value d' a p b l1 f l2 Hok Hs Hpf Hf H.
@@ -73,7 +81,7 @@ Theorem C05_set_existing_local_any_setter :
     exists v,
       dump d  = (dump a ++ ftext l1) ++ field_text f ++ (ftext l2 ++ dump b) /\
       dump d' = (dump a ++ ftext l1) ++ field_text v ++ (ftext l2 ++ dump b) /\
-      d' = a ++ Para (PN (l1 ++ v :: l2)) :: b /\
+      (exists p', d' = a ++ Para p' :: b /\ para_fields p' = l1 ++ v :: l2) /\
       f_name v = f_name f /\ own_lines v = true /\ op_comment o (Some f) (f_comment v).
 Proof.
   intros d o d' a p b l1 f l2 Hok. unfold doc_ok in Hok. apply andb_true_iff in Hok.
@@ -99,7 +107,8 @@ Theorem C05_set_new_appends_own_lines :
       dump d' = pre ++ nl ++ field_text v ++ dump b /\
       closed (pre ++ nl) = true /\ (nl <> [] -> b = []) /\
       f_name v = key_name (op_key o) /\ own_lines v = true /\ op_comment o None (f_comment v) /\
-      d' = a ++ Para (PN (map_last add_nl (para_fields p) ++ [v])) :: b /\
+      (exists p', d' = a ++ Para p' :: b
+                  /\ para_fields p' = map_last add_nl (para_fields p) ++ [v]) /\
       doc_ok d' = true.
 Proof.
   intros d o d' a p b Hok Hset Hs Hab H.
@@ -120,7 +129,7 @@ Theorem C05_delete_local :
     run_op d (ODel j k) = Ok d' ->
     dump d  = (dump a ++ ftext l1) ++ field_text f ++ (ftext l2 ++ dump b) /\
     dump d' = (dump a ++ ftext l1) ++ (ftext l2 ++ dump b) /\
-    d' = a ++ Para (PN (l1 ++ l2)) :: b /\
+    (exists p', d' = a ++ Para p' :: b /\ para_fields p' = l1 ++ l2) /\
     doc_ok d' = true.
 Proof.
   intros d j k d' a p b l1 f l2 Hok Hs Hpf Hf H.
@@ -179,32 +188,69 @@ Proof.
   rewrite (split_doc_eq _ _ _ _ _ Hs) at 1. apply dump_split.
 Qed.
 
-(** 6. set_readback_partial.  After a successful set, on the edited object: the new field is read
-       under every case spelling of its name (with or without index 0), the names of the
-       paragraph and their order are as before (plus the new name at the end when it was absent,
-       spelled as given).
-       FULL STATEMENT (not proved): re-parsing [dump d'] with the parser of Repro/Parse.v gives a
-       document whose abstraction is [d'], so that the same holds for a fresh parse; it needs the
-       printer/parser theorem [parse_dump_abs : doc_ok d -> abs (parse (dump d)) = d], which is not
-       proved (the fresh parse is covered by the correspondence check only: DocCheck.holds judges
-       the implementation's own re-parse of every dump). *)
+(** 6. set_readback_partial.  After a successful [p[k] = value], on the edited object:
+       * for every value deb822 can carry ([valid_value], the Spec's notion: one line, or a first
+         line followed by continuation lines with comment lines only between them, no line
+         boundary other than LF) the field reads back as the Spec's [expected_read value] under
+         every case spelling of the name, with or without index 0, and its stored text is exactly
+         ": " + first line stripped + the remaining lines as given (a final newline supplied);
+       * every other field reads as it did before;
+       * the names of the paragraph and their order are as before, the original spelling of an
+         existing name is kept, a new name is appended spelled as given.
+       FULL STATEMENT (not proved): the same for a fresh parse of [dump d'].  It needs the
+       printer/parser theorem [parse_dump_abs : doc_ok d -> abs (parse (dump d)) = d] for the parser
+       model of Repro/Parse.v, which is not proved.  Theorem 8 proves the paragraph level of it
+       (re-reading the edited paragraph's text as it stands in the dump); the whole-document fresh
+       parse is covered by the correspondence check only (DocCheck.holds judges the
+       implementation's own re-parse of every dump against the same [expected_read]). *)
 Theorem C05_set_readback_partial :
+  forall d j k value d',
+    doc_ok d = true ->
+    run_op d (OSet j k value) = Ok d' ->
+    exists a p b p' v orig,
+      split_doc d j = Some (a, p, b) /\ d' = a ++ Para p' :: b /\
+      new_for p k p' v orig /\
+      (forall k', name_eqb (key_name k') (key_name k) = true -> plain_key k' = true ->
+                  getitem p' k' = Ok (value_str v)) /\
+      (valid_value value = true ->
+         f_rest v = COLON :: setitem_raw value /\ value_str v = expected_read value) /\
+      (forall k', plain_key k' = true -> name_eqb (key_name k') (key_name k) = false ->
+                  getitem p' k' = getitem p k') /\
+      map f_name (para_fields p') =
+        match orig with
+        | Some _ => map f_name (para_fields p)
+        | None => map f_name (para_fields p) ++ [key_name k]
+        end.
+Proof.
+  intros d j k value d' Hok H.
+  unfold doc_ok in Hok. apply andb_true_iff in Hok. destruct Hok as [Hinv _].
+  destruct (run_op_local _ _ _ Hinv H) as [Hinv' [a [p [b [p' [Hs [-> [Hp He]]]]]]]].
+  destruct (run_op_ok _ _ _ H) as [a0 [p0 [b0 [p0' [Hs0 [Hop E]]]]]].
+  rewrite Hs in Hs0. injection Hs0 as <- <- <-. apply app_inv_head in E. injection E as <-.
+  cbn [op_on_para] in Hop.
+  destruct (setitem_readback _ _ _ _ Hp Hop) as [Hp' [v [orig [Hown [Hnew [Hc Hval]]]]]].
+  exists a, p, b, p', v, orig. cbn [op_para] in Hs. repeat split; try assumption.
+  - intros k' Hk Hplain. now apply (getitem_new p k p' v orig).
+  - now apply Hval.
+  - now apply Hval.
+  - intros k' Hplain Hk. now apply (others_unchanged (OSet j k value) p p' k').
+  - now apply (names_after_set p k p' v orig).
+Qed.
+
+(** the same for any setter, without the value: the stored field is read under every spelling *)
+Theorem C05_setter_readback_partial :
   forall d o d' k',
     doc_ok d = true ->
     match o with ODel _ _ => false | _ => true end = true ->
     run_op d o = Ok d' ->
-    name_eqb (key_name k') (key_name (op_key o)) = true -> plain_key k' = true ->
+    plain_key k' = true ->
     exists a p b p' v orig,
       split_doc d (op_para o) = Some (a, p, b) /\ d' = a ++ Para p' :: b /\
       new_for p (op_key o) p' v orig /\
-      getitem p' k' = Ok (value_str v) /\
-      map f_name (para_fields p') =
-        match orig with
-        | Some _ => map f_name (para_fields p)
-        | None => map f_name (para_fields p) ++ [key_name (op_key o)]
-        end.
+      (name_eqb (key_name k') (key_name (op_key o)) = true -> getitem p' k' = Ok (value_str v)) /\
+      (name_eqb (key_name k') (key_name (op_key o)) = false -> getitem p' k' = getitem p k').
 Proof.
-  intros d o d' k' Hok Hset H Hk Hplain.
+  intros d o d' k' Hok Hset H Hplain.
   unfold doc_ok in Hok. apply andb_true_iff in Hok. destruct Hok as [Hinv _].
   destruct (run_op_local _ _ _ Hinv H) as [Hinv' [a [p [b [p' [Hs [-> [Hp He]]]]]]]].
   assert (He' : exists v orig, own_lines v = true /\ new_for p (op_key o) p' v orig).
@@ -213,8 +259,92 @@ Proof.
   rewrite doc_inv_split in Hinv'. apply andb_true_iff in Hinv'. destruct Hinv' as [_ Hinv'].
   apply andb_true_iff in Hinv'. destruct Hinv' as [Hp' _].
   exists a, p, b, p', v, orig. repeat split; try assumption.
-  - now apply (getitem_new p (op_key o) p' v orig).
-  - now apply (names_after_set p (op_key o) p' v orig).
+  - intros Hk. now apply (getitem_new p (op_key o) p' v orig).
+  - intros Hk. now apply (others_unchanged o p p' k').
+Qed.
+
+(** after [del p[k]] the name is gone under every spelling; the other fields read as before *)
+Theorem C05_delete_readback_partial :
+  forall d j k d' k',
+    doc_ok d = true -> run_op d (ODel j k) = Ok d' -> plain_key k' = true ->
+    exists a p b p',
+      split_doc d j = Some (a, p, b) /\ d' = a ++ Para p' :: b /\
+      (name_eqb (key_name k') (key_name k) = true -> getitem p' k' = Err KeyError) /\
+      (name_eqb (key_name k') (key_name k) = false -> getitem p' k' = getitem p k').
+Proof.
+  intros d j k d' k' Hok H Hplain.
+  unfold doc_ok in Hok. apply andb_true_iff in Hok. destruct Hok as [Hinv _].
+  destruct (run_op_local _ _ _ Hinv H) as [Hinv' [a [p [b [p' [Hs [-> [Hp He]]]]]]]].
+  rewrite doc_inv_split in Hinv'. apply andb_true_iff in Hinv'. destruct Hinv' as [_ Hinv'].
+  apply andb_true_iff in Hinv'. destruct Hinv' as [Hp' _].
+  exists a, p, b, p'. cbn [op_para] in Hs. repeat split; try assumption.
+  - intros Hk. cbn [para_edit] in He. destruct He as [l1 [f [l2 [Hpf [Hf [_ Hpf']]]]]].
+    now apply (getitem_deleted p p' (key_name k) l1 f l2 k').
+  - intros Hk. now apply (others_unchanged (ODel j k) p p' k').
+Qed.
+
+(** 7. The duplicate-fields class (Deb822DuplicateFieldsParagraphElement: a linked list of nodes
+       plus an index name -> nodes).  From its constructor on, over every set and remove with any
+       key form, repeated names or not, the index stays consistent with the node list ([d_wf]);
+       so a paragraph of this class whose duplicates have been deleted satisfies [para_inv] and
+       theorems 1-6 apply to it. *)
+Theorem C05_dup_class_index_consistent :
+  (forall fs, d_wf (init_dup fs) = true)
+  /\ (forall d k v d', d_wf d = true -> d_set_kvpair d k v = Ok d' -> d_wf d' = true)
+  /\ (forall d k d', d_wf d = true -> d_remove d k = Ok d' -> d_wf d' = true).
+Proof.
+  split; [exact init_dup_wf|]. split.
+  - intros d k v d' H H1. apply d_wf_DWf. apply d_wf_DWf in H. exact (d_set_kvpair_wf _ _ _ _ H H1).
+  - intros d k d' H H1. apply d_wf_DWf. apply d_wf_DWf in H. exact (d_remove_wf _ _ _ H H1).
+Qed.
+
+(** 8. Re-reading (partial form of the fresh-parse half of the property).  [scan_para] is the
+       model of what tokenizer + parser make of the text of ONE paragraph (Repro/Doc.v; the
+       correspondence check compares it with the implementation's parse of every paragraph of every
+       document, and with the implementation's fresh parse of every dump after every edit).
+       [doc_wf] = [doc_ok] plus: every field consists of complete '#' comment lines, a name of
+       field-name characters, and after the colon the rest of its line followed by continuation
+       lines with comment lines only between them.
+       For every well-formed document and every history: the document stays well-formed, and
+       the text of every paragraph — in particular the edited one, as it stands in the dump —
+       re-reads to exactly that paragraph's fields: same comments, names as spelled, value
+       texts, order.  With theorem 6 this gives, for the edited paragraph as re-read from the
+       dump: the new value under the original spelling, all other fields unchanged.
+       FULL STATEMENT (not proved): the same through a parse of the whole dump; what is missing is
+       the document level of the parser (splitting the dump into paragraphs at blank lines and
+       free comments, dropping emptied paragraphs), for which there is no model theorem. *)
+Theorem C05_reread_partial :
+  forall d ops,
+    doc_wf d = true ->
+    doc_wf (run d ops) = true
+    /\ forall j a p b, split_doc (run d ops) j = Some (a, p, b) ->
+                       scan_para (para_text p) = Ok (para_fields p).
+Proof.
+  intros d ops H. pose proof (run_wf ops d H) as H'. split; [exact H'|].
+  intros j a p b Hs. exact (paragraphs_reread _ _ _ _ _ H' Hs).
+Qed.
+
+Theorem C05_set_reread_partial :
+  forall d j k value d',
+    doc_wf d = true ->
+    run_op d (OSet j k value) = Ok d' ->
+    exists a p b p' v orig,
+      split_doc d j = Some (a, p, b) /\ d' = a ++ Para p' :: b /\
+      dump d' = dump a ++ para_text p' ++ dump b /\
+      scan_para (para_text p') = Ok (para_fields p') /\
+      new_for p k p' v orig /\
+      (valid_value value = true -> value_str v = expected_read value) /\
+      doc_wf d' = true.
+Proof.
+  intros d j k value d' Hwf H.
+  pose proof (run_op_wf _ _ _ Hwf H) as Hwf'.
+  assert (Hok : doc_ok d = true) by (unfold doc_wf in Hwf; apply andb_true_iff in Hwf; now destruct Hwf).
+  destruct (C05_set_readback_partial d j k value d' Hok H)
+    as [a [p [b [p' [v [orig [Hs [-> [Hnew [_ [Hval _]]]]]]]]]]].
+  exists a, p, b, p', v, orig. repeat split; try assumption.
+  - now rewrite dump_app, dump_cons.
+  - exact (paragraphs_reread _ _ _ _ _ Hwf' (split_doc_app a p' b)).
+  - intros Hv. now apply Hval.
 Qed.
 
 (** Non-vacuity: a document with a head comment, two paragraphs (a field with its own comment, a
@@ -237,13 +367,20 @@ Example C05_nonvacuous :
       OSet 1 (KStr (s "a b")) (s "v");
       ODel 0 (KStr (s "package"));
       ODel 0 (KIdx (s "Depends") 1) ] in
-  doc_ok d = true
+  doc_ok d = true /\ doc_wf d = true
   /\ split_doc d 1 = Some (firstn 4 d, PN [ mkF [] (s "Package") (s ": bar") ], [])
   /\ map (fun o => fst (step d o)) ops = [None; None; Some ValueError; None; Some KeyError]
   /\ dump (run d ops) =
      (s "# head" ++ nl ++ nl ++ s "# why" ++ nl ++ s "Depends: x" ++ nl ++ nl
       ++ s "Package: bar" ++ nl ++ s "New: m" ++ nl ++ s " l2" ++ nl)%list
-  /\ doc_ok (run d ops) = true.
+  /\ doc_ok (run d ops) = true /\ doc_wf (run d ops) = true
+  (* a paragraph of the duplicate-fields class, once its duplicate is deleted, is valid too *)
+  /\ (let dd := [ Para (PD (init_dup [ mkF [] (s "A") (s ": 1" ++ nl); mkF [] (s "B") (s ": 2" ++ nl);
+                                       mkF [] (s "a") (s ": 3") ])) ]%list in
+      doc_ok dd = false
+      /\ doc_ok (run dd [ODel 0 (KIdx (s "A") 1)]) = true
+      /\ dump (run dd [ODel 0 (KIdx (s "A") 1); OSet 0 (KStr (s "C")) (s "x"); OSet 0 (KStr (s "b")) (s "y")])
+         = (s "A: 1" ++ nl ++ s "B: y" ++ nl ++ s "C: x" ++ nl)%list).
 Proof. vm_compute. repeat split. Qed.
 
 Print Assumptions C05_set_existing_local.
@@ -255,3 +392,8 @@ Print Assumptions C05_edit_sequence.
 Print Assumptions C05_histories_keep_validity.
 Print Assumptions C05_successful_operation_is_local.
 Print Assumptions C05_set_readback_partial.
+Print Assumptions C05_setter_readback_partial.
+Print Assumptions C05_delete_readback_partial.
+Print Assumptions C05_dup_class_index_consistent.
+Print Assumptions C05_reread_partial.
+Print Assumptions C05_set_reread_partial.
